@@ -49,23 +49,23 @@ class Tlv:
         self.shortest = shortest
 
 
-def rd_tlv(b, off, end):
+def rd_tlv(b, off, end, where='model'):
     """one element that must lie entirely inside [off, end)"""
     typ, st, m1 = rd_num(b, off, end)
     ln, sl, m2 = rd_num(b, off + st, end)
     vs = off + st + sl
     if ln > end - vs:
-        raise RefReject('element overruns its parent')
+        raise RefReject('overrun:' + where)
     ln = as_int(ln)
     return Tlv(typ, off, vs, vs + ln, And(m1, m2))
 
 
-def rd_seq(b, start, end):
+def rd_seq(b, start, end, where='model'):
     """the elements that tile [start, end) exactly"""
     out = []
     off = start
     while off < end:
-        t = rd_tlv(b, off, end)
+        t = rd_tlv(b, off, end, where)
         out.append(t)
         off = t.ve
     return out
@@ -90,7 +90,11 @@ def rd_uint(b, t):
 def decode_model(b, start, end, schema, ignore_critical=False, hooks=None):
     vals = {}
     pos = 0
-    for t in rd_seq(b, start, end):
+    elems = rd_seq(b, start, end)
+    k = 0
+    while k < len(elems):
+        t = elems[k]
+        k += 1
         typ = t.typ
         idx = None
         for i in range(pos, len(schema)):
@@ -109,6 +113,25 @@ def decode_model(b, start, end, schema, ignore_critical=False, hooks=None):
         if kind == 'rep':
             vals.setdefault(name, []).append(decode_value(b, t, arg[0], arg[1]))
             pos = idx
+        elif kind == 'map':
+            kk, ka, vk, va, vt = arg
+            key = decode_value(b, t, kk, None)
+            # the value element follows; unrecognised non-critical elements in between are ignored
+            while True:
+                if k >= len(elems):
+                    raise RefReject('map key without value')
+                t2 = elems[k]
+                k += 1
+                if t2.typ == vt:
+                    break
+                if (t2.typ % 2) == 1 and not ignore_critical:
+                    raise RefReject('unrecognised critical element inside a map entry')
+            if vk == 'model':
+                val = decode_model(b, t2.vs, t2.ve, ref_schema_of(va[0]), va[1])
+            else:
+                val = decode_value(b, t2, vk, None)
+            vals.setdefault(name, []).append((key, val))
+            pos = idx
         else:
             vals[name] = decode_value(b, t, kind, arg)
             if hooks and ('@' + name) in hooks:
@@ -116,6 +139,11 @@ def decode_model(b, start, end, schema, ignore_critical=False, hooks=None):
             pos = idx + 1
     vals['#end_pos'] = pos
     return vals
+
+
+def ref_schema_of(schema):
+    from . import modelgen
+    return modelgen.ref_schema(schema)
 
 
 def decode_value(b, t, kind, arg):
@@ -139,7 +167,7 @@ def decode_value(b, t, kind, arg):
 
 
 def rd_name_components(b, t):
-    comps = rd_seq(b, t.vs, t.ve)
+    comps = rd_seq(b, t.vs, t.ve, 'name-component')
     return comps
 
 
@@ -200,7 +228,7 @@ def parse_name(b):
         raise RefReject('name overruns the buffer')
     ln = as_int(ln)
     t = Tlv(7, 0, vs, vs + ln, True)
-    return [b[c.start:c.ve] for c in rd_seq(b, t.vs, t.ve)], vs + ln
+    return [b[c.start:c.ve] for c in rd_seq(b, t.vs, t.ve, 'name-component')], vs + ln
 
 
 def parse_data(b, schema=DATA):
@@ -275,7 +303,7 @@ def strict_tree(b, start, end, schema, path='', ignore_critical=False):
             ok = And(ok, ok2)
             found.extend(sub)
         elif kind == 'name':
-            for c in rd_seq(b, t.vs, t.ve):
+            for c in rd_seq(b, t.vs, t.ve, 'name-component'):
                 ok = And(ok, c.shortest)
         elif kind == 'uint':
             n = t.ve - t.vs
